@@ -391,3 +391,7 @@ func HC06_mapKeys() {
 		vfAssert(skelHas(text, "MapEntry(k as ") && !skelHas(text, "int.parse(k)"), "C06/string-map-keys-are-taken-as-they-are")
 	}
 }
+
+// HC06_enumOrder: the same clauses on enums of up to 4 constants with one-letter names (the order of
+// the Dart enum names against the values needs at least 3 constants to go wrong).
+func HC06_enumOrder() { HC06_enum() }
